@@ -356,6 +356,14 @@ def run_check(prop, tier, seed):
         # ---- evidence
         import trustscan
         tb = sorted(trusted) + trustscan.scan([j.asm.text for j in runnable if j.asm])
+        std_discharge = None
+        if tier == "thorough" and status != 2:
+            # DESIGN 6.4: the finite-domain assumed std contracts are proved by CBMC over their full domain; only re-labels the assumption
+            try:
+                import stdcheck
+                tb, std_discharge = stdcheck.discharge(tb, scratch)
+            except Exception as e:
+                log("std-contract discharge stage failed (ignored): %s" % e)
         audit = {}
         if hasattr(plan, "audit"):
             try:
@@ -402,6 +410,8 @@ def run_check(prop, tier, seed):
         if not samples and dyn["harnesses"]:
             samples.append({"harness": dyn["harnesses"][0], "kind": "executable contract, random inputs", "runs": dyn["random_runs_per_harness"]})
             cov["samples"] = samples
+        if std_discharge is not None:
+            cov["assumed_std_contracts_discharged"] = std_discharge
         cov.update(audit)
         if hasattr(plan, "extra_evidence"):
             cov.update(plan.extra_evidence(prop, tier))
